@@ -6,6 +6,7 @@ HARNESS = os.path.join(VERIF, "harness")
 BUILD = os.path.join(VERIF, ".build")
 RUN = os.path.join(BUILD, "run")
 PM = os.path.join(BUILD, "target", "release", "pm")
+PM_RNG = os.path.join(BUILD, "target-rng", "release", "pm")
 DRIVER = os.path.join(LEAN, ".lake", "build", "bin", "pmdriver")
 ALLOWED_AXIOMS = {"propext", "Classical.choice", "Quot.sound"}
 TRUSTED_BASE = [
@@ -17,12 +18,14 @@ TRUSTED_BASE = [
 ]
 
 
-def par(cmd, text, env=None, timeout=14400, nproc=None):
+def par(cmd, text, env=None, timeout=14400, nproc=None, heavy=False):
     """run a line-by-line filter over `text` in parallel chunks (output lines correspond 1:1 to input lines)"""
     lines = text.splitlines()
     n = nproc or min(16, os.cpu_count() or 4)
-    if len(lines) < 400:
+    if len(lines) < (2 if heavy else 400):
         return sh(cmd, stdin=text.encode(), env=env, timeout=timeout)
+    if heavy:
+        n = min(n, len(lines))
     size = (len(lines) + n - 1) // n
     chunks = [lines[i:i + size] for i in range(0, len(lines), size)]
     e = dict(os.environ)
@@ -239,13 +242,13 @@ def canon(line, policy):
     return line
 
 
-def run_stream(ctx, name, gen_args, policy="okerr", oracle=None, pm=PM, ops=None, nontrivial=None):
+def run_stream(ctx, name, gen_args, policy="okerr", oracle=None, pm=PM, ops=None, nontrivial=None, gen_pm=PM, heavy=False):
     """generate ops, run implementation and model, diff, run oracle"""
     os.makedirs(RUN, exist_ok=True)
     tag = "%s_%s_%d" % (ctx.pid, name, os.getpid())
     ops_path = os.path.join(RUN, tag + ".ops")
     if ops is None:
-        rc, out, err = sh([pm, "gen"] + gen_args + [ctx.tier], env={"VERIF_SEED": str(ctx.seed)}, timeout=7200)
+        rc, out, err = sh([gen_pm, "gen"] + gen_args + [ctx.tier], env={"VERIF_SEED": str(ctx.seed)}, timeout=7200)
         if rc != 0:
             ctx.k_broken.append({"kind": "generator", "stream": name, "detail": err[-1500:]})
             return
@@ -270,7 +273,7 @@ def run_stream(ctx, name, gen_args, policy="okerr", oracle=None, pm=PM, ops=None
                 ctx.k_broken.append({"kind": "stage1", "stream": name, "op": lines[k][:400]})
         ops = "\n".join(lines) + "\n"
     open(ops_path, "w").write(ops)
-    rc, impl, err = par([pm, "exec"], ops, timeout=14400)
+    rc, impl, err = par([pm, "exec"], ops, timeout=14400, heavy=heavy)
     if rc != 0:
         # the process died (abort / signal): bisect to the offending line
         lines = ops.splitlines()
